@@ -489,7 +489,11 @@ class WFSA:
 
         if S is None:
             S = _gen_nt()
-        cfg = CFG(R=self.R, V=self.alphabet - {EPSILON}, S=S)
+        V = self.alphabet - {EPSILON}
+        if not self.states.isdisjoint(V):
+            # states double as nonterminals: keep them apart from the terminals
+            self = self.rename(lambda q: ("state", q))
+        cfg = CFG(R=self.R, V=V, S=S)
 
         if recursion == "right":
             # add production rule for initial states
